@@ -44,6 +44,37 @@ PROPS = {
                  "the model reports the scheduling point it expects at every step and it is diffed)",
                  "a10 verif hooks A/B"],
     ),
+    "C11": dict(
+        driver="C11",
+        model="Model/Wake.v",
+        run_fn="run_wkcase",
+        theorems=["C11_no_lost_ring_wakeup", "C11_wake_is_on_its_way", "C11_awoken_bit_makes_next_poll_prompt",
+                  "C11_pending_message_has_a_submitter", "C11_owed_poller_is_resumable_or_a_waker_is_running"],
+        rule="one splitmix64 stream per case: one poller thread calling Ring::poll(None) 1..3 times and 1..3 waker "
+             "threads each calling SubmissionQueue::wake 1..2 times, on a ring of the simulated kernel in one of the "
+             "three ring modes (default, single issuer, kernel-thread flag) with random 32-bit start counters, run "
+             "one at a time under the baton scheduler with a random schedule (preemption probability 5..50% at "
+             "every hook-B scheduling point: the PollingState swap / fetch_or, loads of head/tail/flags, submission "
+             "lock, slot fill, tail store, CQ head store, try_lock of wake_blocked_futures) and the simulator's "
+             "blocking enter; the executed interleaving (incl. the scheduler's report that the blocked poller can "
+             "never be resumed) is the case and the model replays it step by step; non-trivial = at least one "
+             "preemption; distinct by the Coq case term",
+        assumptions=["API-level reading of the property (DESIGN.md §6 C11): a wake() targets the Ring::poll in "
+                     "progress (called, not yet returned) at the wake's fetch_or, else the next one to start; the "
+                     "stricter reading (target = a poll inside the kernel) is documented by "
+                     "C11_strict_target_reading_refuted and not raised as a violation",
+                     "kernel contract K6 (MSG_RING posts the message completion on the target ring, and the sender's "
+                     "own completion when submitted through the ring; the kernel thread consumes what is published)",
+                     "sequentially consistent interleaving at hook-B scheduling points; the AcqRel orderings "
+                     "themselves are not verified",
+                     "schedules the scheduler can produce: a blocked poller is resumed only when something arrived, "
+                     "'stuck' is reported only when both queues are empty and every waker has finished (ev_ok)",
+                     "liveness is reduced to safety plus 'a waker inside its call eventually runs'"],
+        trusted=["simulated kernel harness/src/simk.rs (blocking enter, MSG_RING, SQPOLL consumption)",
+                 "baton scheduler harness/src/sched.rs (replays are exact: the model reports the scheduling point it "
+                 "expects at every step and it is diffed; blocked/stuck markers)",
+                 "a10 verif hooks A/B"],
+    ),
     "C09": _ops_entry("C09", ["C09_restart_transparent", "C09_final_completion_ends_attempt",
                               "C09_multi_interruption_with_more_surfaces_refuted",
                               "C09_multi_restart_with_queued_results_panics_refuted"],
